@@ -452,7 +452,7 @@ fn main() {
         "the extra-data clause is decided by the separate crate harness/vdata (compile probe + alignment monitor)".into(),
     ];
     let thorough = tier == "thorough";
-    let ncases = ((if thorough { 20000. } else { 500. }) * scale) as u64;
+    let ncases = ((if thorough { 60000. } else { 3000. }) * scale) as u64;
     let szs: Vec<usize> = if thorough { vec![1, 2, 3, 4, 5, 8, 13, 27, 50, 100, 200, 400] } else { vec![1, 2, 3, 4, 5, 8, 13, 27, 50, 100] };
     let next = AtomicU64::new(0);
     let merged: Mutex<Vec<Report>> = Mutex::new(vec![]);
